@@ -77,6 +77,26 @@ def lnStep (st : LnState) (ws : List String) : LnState × String :=
         let f' := readLineMarker f ln n (nm.map strOfBytes)
         ({ st with files := st.files.set e.idx f' }, s!"dir line={ln} delta={f'.lineDelta} name={hexStr f'.displayName}")
     | _, _, _, _ => (st, "bad-op")
+  | "addln" :: id :: offs =>
+    match id.toNat?, offs.mapM (·.toNat?) with
+    | some id, some offs =>
+      match findEnt st id with
+      | none => (st, "bad-id")
+      | some e =>
+        match addLineNumbers e.text (offs.map (finalPos e.bytes) ++ [e.text.length]) with
+        | .ok ls => (st, "addln " ++ " ".intercalate (ls.map toString))
+        | .error _ => (st, "crash null-tok")
+    | _, _ => (st, "bad-op")
+  | "addlnt" :: id :: locs =>
+    match id.toNat?, locs.mapM (·.toNat?) with
+    | some id, some locs =>
+      match findEnt st id with
+      | none => (st, "bad-id")
+      | some e =>
+        match addLineNumbers e.text locs with
+        | .ok ls => (st, "addln " ++ " ".intercalate (ls.map toString))
+        | .error _ => (st, "crash null-tok")
+    | _, _ => (st, "bad-op")
   | [cmd, id, off] =>
     match id.toNat?, off.toNat? with
     | some id, some off =>
@@ -107,26 +127,6 @@ def lnStep (st : LnState) (ws : List String) : LnState × String :=
           (st, s!"synth line={line} fileno={no} name={hexStr (diagPrefix st.files t').1}")
         | "errat" => (st, s!"errat {errorAtLine e.text pos} shown={hexOf (shownLine e.text pos)}")
         | _ => (st, "bad-op")
-    | _, _ => (st, "bad-op")
-  | "addln" :: id :: offs =>
-    match id.toNat?, offs.mapM (·.toNat?) with
-    | some id, some offs =>
-      match findEnt st id with
-      | none => (st, "bad-id")
-      | some e =>
-        match addLineNumbers e.text (offs.map (finalPos e.bytes) ++ [e.text.length]) with
-        | .ok ls => (st, "addln " ++ " ".intercalate (ls.map toString))
-        | .error _ => (st, "crash null-tok")
-    | _, _ => (st, "bad-op")
-  | "addlnt" :: id :: locs =>
-    match id.toNat?, locs.mapM (·.toNat?) with
-    | some id, some locs =>
-      match findEnt st id with
-      | none => (st, "bad-id")
-      | some e =>
-        match addLineNumbers e.text locs with
-        | .ok ls => (st, "addln " ++ " ".intercalate (ls.map toString))
-        | .error _ => (st, "crash null-tok")
     | _, _ => (st, "bad-op")
   | _ => (st, "bad-op")
 
